@@ -87,6 +87,8 @@ func applyFastLocks() func() {
 	oldSentLock := constants.SentinelLockTimeWindow
 	oldSentRevoke := constants.SentinelRevokeTimeWindow
 	oldRewardLimit := constants.RewardTimeLimit
+	oldVoting := constants.AcceleratorProjectVotingPeriod
+	constants.AcceleratorProjectVotingPeriod = 2400 // projects nobody votes for are closed within a history
 	constants.StakeTimeUnitSec = 600
 	constants.StakeTimeMinSec = constants.StakeTimeUnitSec * 1
 	constants.StakeTimeMaxSec = constants.StakeTimeUnitSec * 12
@@ -108,6 +110,7 @@ func applyFastLocks() func() {
 		constants.SentinelLockTimeWindow = oldSentLock
 		constants.SentinelRevokeTimeWindow = oldSentRevoke
 		constants.RewardTimeLimit = oldRewardLimit
+		constants.AcceleratorProjectVotingPeriod = oldVoting
 	}
 }
 
